@@ -56,7 +56,7 @@ def main(argv=None):
         if args.tier == "thorough" and not args.no_selftest:
             from . import selftest as st
             selftest = st.run_for(pid, prog)
-        return report.finish(result, args.tier, t0, selftest)
+        return report.finish(result, args.tier, t0, selftest, prog)
     except AnalysisError as e:
         print("ANALYSIS-ERROR property=%s %s" % (pid, e))
         return 2
